@@ -758,6 +758,14 @@ func (d *Driver) Check(e *mc.Env, s *mc.State) []mc.Finding {
 	return fs
 }
 
+// Variants exposes the explorations for reuse by the cross-cutting checks (C11, C12).
+func Variants() []Variant {
+	return []Variant{
+		{Name: "ledger-boundary-amounts", Boundary: true, MaxClasses: 1, MaxTokens: 2},
+		{Name: "authority-and-ids", MaxClasses: 2, MaxTokens: 2},
+	}
+}
+
 // Parts of the C15 check.
 func Parts() []mc.Part {
 	ledger := Variant{Name: "ledger-boundary-amounts", Boundary: true, MaxClasses: 1, MaxTokens: 2,
